@@ -36,30 +36,44 @@ def SimpleDateCode (toks : List Tok) : Prop := simpleCode toks = true
 
 instance (toks : List Tok) : Decidable (SimpleDateCode toks) := by unfold SimpleDateCode; infer_instance
 
-/-- **Display, from the second count.**  If the (checked) day/time split of the cell's number is day
+/-- **Display, from the second count, codes with `AM/PM` included (partial).**  FULL statement wanted: the
+    conclusion with `showToks` (Excel's rule: the marker is `AM` / `PM`).  Proved: the conclusion with
+    `showToksCode`, which differs from `showToks` in one place only — the marker is `am` / `pm` (the code maps
+    `am/pm` to chrono's `%P`; refuted for `showToks` by `C18_ampm_case_fails`).  The 12-hour clock itself
+    (`h12` / `hh12`: 0 and 12 o'clock ↦ 12, 13…23 ↦ 1…11; the code reads `h` so exactly when the marker is
+    present) and AM-before-noon are as Excel's rule says.  If the (checked) day/time split of the cell's number is day
     number `n` (1899-12-31 … 9999-12-31 in the reference calendar) and second `T`, a cell whose format is
     a `SimpleDateCode` shows, token by token, the year / month / day of `civilFromDays n` and the hour /
     minute / second of `T`. -/
-theorem C18_date_display {F : Type} [FloatOps F] (toks : List Tok) (hc : SimpleDateCode toks)
+theorem C18_date_display_ampm_partial {F : Type} [FloatOps F] (toks : List Tok) (hc : SimpleDateCode toks)
     (g : List Char) (ts : F) (n T : Int)
     (h0 : daysFromCivil 1899 12 31 ≤ n) (h1 : n ≤ daysFromCivil 9999 12 31) (hT : 0 ≤ T ∧ T < 86400)
     (hts : excelToEpochSecondsChecked ts = some (n * 86400 + T)) :
-    formatAsDateChecked (codeText toks) g ts = some (trimBlanks (showToks (civilDateTime n T) toks)) := by
+    formatAsDateChecked (codeText toks) g ts = some (trimBlanks (showToksCode (civilDateTime n T) toks)) := by
   obtain ⟨sf, e1, e2⟩ := render_toks toks hc n T h0 h1 hT
   unfold formatAsDateChecked
   rw [e1]
   simp only [hts, e2, Option.map_some]
 
+/-- **Display, from the second count** — every `SimpleDateCode` without the `AM/PM` marker (month and weekday
+    names included): the text is token by token what Excel's rule says (`showToks`). -/
+theorem C18_date_display {F : Type} [FloatOps F] (toks : List Tok) (hc : SimpleDateCode toks)
+    (hp : toks.contains .ampm = false) (g : List Char) (ts : F) (n T : Int)
+    (h0 : daysFromCivil 1899 12 31 ≤ n) (h1 : n ≤ daysFromCivil 9999 12 31) (hT : 0 ≤ T ∧ T < 86400)
+    (hts : excelToEpochSecondsChecked ts = some (n * 86400 + T)) :
+    formatAsDateChecked (codeText toks) g ts = some (trimBlanks (showToks (civilDateTime n T) toks)) := by
+  rw [C18_date_display_ampm_partial toks hc g ts n T h0 h1 hT hts, showToksCode_eq _ toks hp]
+
 /-- the same for the unguarded function the C18 driver executes (`formatAsDate`) -/
 theorem C18_date_display_unchecked {F : Type} [FloatOps F] (toks : List Tok) (hc : SimpleDateCode toks)
-    (ts : F) (n T : Int)
+    (hp : toks.contains .ampm = false) (ts : F) (n T : Int)
     (h0 : daysFromCivil 1899 12 31 ≤ n) (h1 : n ≤ daysFromCivil 9999 12 31) (hT : 0 ≤ T ∧ T < 86400)
     (hts : excelToEpochSeconds ts = n * 86400 + T) :
     formatAsDate (codeText toks) ts = some (trimBlanks (showToks (civilDateTime n T) toks)) := by
   obtain ⟨sf, e1, e2⟩ := render_toks toks hc n T h0 h1 hT
   unfold formatAsDate excelToDateTime
   rw [e1]
-  simp only [hts, e2, Option.map_some]
+  simp only [hts, e2, Option.map_some, showToksCode_eq _ toks hp]
 
 section
 variable {F : Type} [FloatOps F] {val : F → ℚ} {fin : F → Prop}
@@ -68,7 +82,7 @@ variable {F : Type} [FloatOps F] {val : F → ℚ} {fin : F → Prop}
     `2958469·2⁻⁵³` of `D + T/86400` (`61 ≤ D ≤ 2958465`: 1900-03-01 … 9999-12-31; `T < 86400`) the text
     of a `SimpleDateCode` is the calendar date `1899-12-30 + D days` and the time of day `T`. -/
 theorem C18_date_display_float (h : StdModel F val fin) (toks : List Tok) (hc : SimpleDateCode toks)
-    (g : List Char) (ts : F) (fts : fin ts) (D T : Int) (hD : 61 ≤ D ∧ D ≤ 2958465)
+    (hp : toks.contains .ampm = false) (g : List Char) (ts : F) (fts : fin ts) (D T : Int) (hD : 61 ≤ D ∧ D ≤ 2958465)
     (hT : 0 ≤ T ∧ T < 86400)
     (he : |val ts - ((D : ℚ) + (T : ℚ) / 86400)| ≤ 2958469 / 2 ^ 53) :
     formatAsDateChecked (codeText toks) g ts =
@@ -76,17 +90,31 @@ theorem C18_date_display_float (h : StdModel F val fin) (toks : List Tok) (hc : 
   have e1 : daysFromCivil 1899 12 30 = -25569 := by decide
   have e2 : daysFromCivil 1899 12 31 = -25568 := by decide
   have e3 : daysFromCivil 9999 12 31 = 2932896 := by decide
-  exact C18_date_display toks hc g ts _ T (by omega) (by omega) hT (C18_time_float_near h ts fts D T hD hT he).2
+  exact C18_date_display toks hc hp g ts _ T (by omega) (by omega) hT (C18_time_float_near h ts fts D T hD hT he).2
 
-/-- **Display of a date written by `convert_date`.**  For every date of the 1900 system and every time of
+/-- the same with the `AM/PM` marker allowed (partial: marker in lower case, see `C18_date_display_ampm_partial`) -/
+theorem C18_date_display_ampm_float_partial (h : StdModel F val fin) (toks : List Tok) (hc : SimpleDateCode toks)
+    (g : List Char) (ts : F) (fts : fin ts) (D T : Int) (hD : 61 ≤ D ∧ D ≤ 2958465)
+    (hT : 0 ≤ T ∧ T < 86400)
+    (he : |val ts - ((D : ℚ) + (T : ℚ) / 86400)| ≤ 2958469 / 2 ^ 53) :
+    formatAsDateChecked (codeText toks) g ts =
+      some (trimBlanks (showToksCode (civilDateTime (daysFromCivil 1899 12 30 + D) T) toks)) := by
+  have e1 : daysFromCivil 1899 12 30 = -25569 := by decide
+  have e2 : daysFromCivil 1899 12 31 = -25568 := by decide
+  have e3 : daysFromCivil 9999 12 31 = 2932896 := by decide
+  exact C18_date_display_ampm_partial toks hc g ts _ T (by omega) (by omega) hT
+    (C18_time_float_near h ts fts D T hD hT he).2
+
+/-- **Display of a date written by `convert_date`** (worker; `AM/PM` allowed, marker in lower case — partial
+    as `C18_date_display_ampm_partial`).  For every date of the 1900 system and every time of
     day, the cell that holds `convert_date y m d hh mi s` and has a `SimpleDateCode` format shows, token by
     token, `y m d hh mi s` themselves (standard-model floats; 1900-01-01T00:00:00 under correct rounding). -/
-theorem C18_date_display_convert (h : StdModel F val fin) (toks : List Tok) (hc : SimpleDateCode toks)
+theorem C18_date_display_ampm_convert_partial (h : StdModel F val fin) (toks : List Tok) (hc : SimpleDateCode toks)
     (g : List Char) (y m d hh mi s : Int) (hd : InDomain y m d) (ht : ValidTime hh mi s)
     (hx : ExactRepr F val fin ∨ ¬ (y = 1900 ∧ m = 1 ∧ d = 1 ∧ hh = 0 ∧ mi = 0 ∧ s = 0)) :
     ∃ ts : F, convertDateF F y m d hh mi s = some ts ∧
       formatAsDateChecked (codeText toks) g ts =
-        some (trimBlanks (showToks ⟨y, m, d, hh, mi, s, daysFromCivil y m d⟩ toks)) := by
+        some (trimBlanks (showToksCode ⟨y, m, d, hh, mi, s, daysFromCivil y m d⟩ toks)) := by
   obtain ⟨ts, e1, _, e3⟩ := C18_convert_epoch_float h y m d hh mi s hd ht hx
   refine ⟨ts, e1, ?_⟩
   obtain ⟨a0, a1, b0, b1, c0, c1⟩ := ht
@@ -117,13 +145,25 @@ theorem C18_date_display_convert (h : StdModel F val fin) (toks : List Tok) (hc 
           · exact Or.inl hm
           · exact Or.inr ⟨by omega, by omega⟩
       exact Int.le_of_lt (daysFromCivil_strictMono _ _ _ _ _ _ hd.1 (by decide) this)
-  rw [C18_date_display toks hc g ts (daysFromCivil y m d) (hh * 3600 + mi * 60 + s) hlo hhi
+  rw [C18_date_display_ampm_partial toks hc g ts (daysFromCivil y m d) (hh * 3600 + mi * 60 + s) hlo hhi
     ⟨by omega, by omega⟩ e3]
   unfold civilDateTime
   have r1 : (hh * 3600 + mi * 60 + s) / 3600 = hh := by omega
   have r2 : (hh * 3600 + mi * 60 + s) % 3600 / 60 = mi := by omega
   have r3 : (hh * 3600 + mi * 60 + s) % 60 = s := by omega
   simp only [r1, r2, r3, civilFromDays_daysFromCivil y m d hd.1]
+
+/-- **Display of a date written by `convert_date`**, codes without the `AM/PM` marker: token by token
+    `y m d hh mi s` themselves, month and weekday names included (Excel's rule, `showToks`). -/
+theorem C18_date_display_convert (h : StdModel F val fin) (toks : List Tok) (hc : SimpleDateCode toks)
+    (hp : toks.contains .ampm = false)
+    (g : List Char) (y m d hh mi s : Int) (hd : InDomain y m d) (ht : ValidTime hh mi s)
+    (hx : ExactRepr F val fin ∨ ¬ (y = 1900 ∧ m = 1 ∧ d = 1 ∧ hh = 0 ∧ mi = 0 ∧ s = 0)) :
+    ∃ ts : F, convertDateF F y m d hh mi s = some ts ∧
+      formatAsDateChecked (codeText toks) g ts =
+        some (trimBlanks (showToks ⟨y, m, d, hh, mi, s, daysFromCivil y m d⟩ toks)) := by
+  obtain ⟨ts, e1, e2⟩ := C18_date_display_ampm_convert_partial h toks hc g y m d hh mi s hd ht hx
+  exact ⟨ts, e1, by rw [e2, showToksCode_eq _ toks hp]⟩
 
 end
 
@@ -137,6 +177,14 @@ theorem C18_date_display_notrim (toks : List Tok) (hc : SimpleDateCode toks) (hn
   have hv := civilFromDays_valid n
   exact trimBlanks_showToks (civilDateTime n T) ⟨hv.1, hv.2.1⟩ toks hc.1 hne h1 h2
 
+theorem C18_date_display_ampm_notrim (toks : List Tok) (hc : SimpleDateCode toks) (hne : toks ≠ [])
+    (h1 : toks.head? ≠ some (.lit ' ')) (h2 : toks.getLast? ≠ some (.lit ' ')) (n T : Int) :
+    trimBlanks (showToksCode (civilDateTime n T) toks) = showToksCode (civilDateTime n T) toks := by
+  unfold SimpleDateCode simpleCode at hc
+  simp only [Bool.and_eq_true] at hc
+  have hv := civilFromDays_valid n
+  exact trimBlanks_showToksCode (civilDateTime n T) ⟨hv.1, hv.2.1⟩ toks hc.1 hne h1 h2
+
 open Tok in
 /-- **`yyyy-mm-dd`, spelled out.**  A cell with the format `yyyy-mm-dd` whose number splits into day number
     `n` (1899-12-31 … 9999-12-31) and second `T` shows the four-digit year, `-`, the two-digit month, `-`,
@@ -147,7 +195,7 @@ theorem C18_date_display_iso {F : Type} [FloatOps F] (g : List Char) (ts : F) (n
     formatAsDateChecked "yyyy-mm-dd".toList g ts =
       some (pad4 (civilFromDays n).1 ++ '-' :: (pad2 (civilFromDays n).2.1 ++ '-' :: pad2 (civilFromDays n).2.2)) := by
   have hc : SimpleDateCode [yyyy, lit '-', mm, lit '-', dd] := by decide
-  have e := C18_date_display [yyyy, lit '-', mm, lit '-', dd] hc g ts n T h0 h1 hT hts
+  have e := C18_date_display [yyyy, lit '-', mm, lit '-', dd] hc (by decide) g ts n T h0 h1 hT hts
   rw [C18_date_display_notrim _ hc (by decide) (by decide) (by decide)] at e
   have ec : codeText [yyyy, lit '-', mm, lit '-', dd] = "yyyy-mm-dd".toList := by decide
   rw [ec] at e
@@ -196,7 +244,7 @@ example : ∃ ts : Rat, convertDateF Rat 2021 6 2 5 4 2 = some ts ∧
     formatAsDateChecked "yyyy-mm-dd hh:mm:ss".toList "44349.21113425926".toList ts =
       some "2021-06-02 05:04:02".toList := by
   obtain ⟨ts, e1, e2⟩ := C18_date_display_convert stdModel_rat
-    [yyyy, lit '-', mm, lit '-', dd, lit ' ', hh, lit ':', mi, lit ':', ss] C18_simple_codes.2.1
+    [yyyy, lit '-', mm, lit '-', dd, lit ' ', hh, lit ':', mi, lit ':', ss] C18_simple_codes.2.1 (by decide)
     "44349.21113425926".toList 2021 6 2 5 4 2 (by decide) (by decide) (Or.inl exactRepr_rat)
   refine ⟨ts, e1, ?_⟩
   have e : codeText [yyyy, lit '-', mm, lit '-', dd, lit ' ', hh, lit ':', mi, lit ':', ss] =
@@ -209,7 +257,62 @@ open Tok in
 example : ∃ ts : QUp, convertDateF QUp 2024 5 23 23 59 59 = some ts ∧
     formatAsDateChecked (codeText [d, lit '-', mmm, lit '-', yy]) [] ts = some "23-May-24".toList := by
   obtain ⟨ts, e1, e2⟩ := C18_date_display_convert stdModel_qup [d, lit '-', mmm, lit '-', yy]
-    C18_simple_codes.2.2.2.2.2.1 [] 2024 5 23 23 59 59 (by decide) (by decide) (Or.inr (by decide))
+    C18_simple_codes.2.2.2.2.2.1 (by decide) [] 2024 5 23 23 59 59 (by decide) (by decide) (Or.inr (by decide))
   exact ⟨ts, e1, by rw [e2]; decide +kernel⟩
+
+/-! ## month names, weekday names, the 12-hour clock -/
+
+open Tok in
+/-- codes with names and with `AM/PM` in the class (kernel evaluation of the tables), built-in ids 18 and 19 among them -/
+theorem C18_simple_codes_names :
+    SimpleDateCode [h12, lit ':', mi, lit ' ', ampm] ∧                                   -- 18  h:mm AM/PM
+    SimpleDateCode [h12, lit ':', mi, lit ':', ss, lit ' ', ampm] ∧                      -- 19  h:mm:ss AM/PM
+    SimpleDateCode [hh12, lit ':', mi, lit ' ', ampm] ∧                                  -- hh:mm AM/PM
+    SimpleDateCode [dddd, lit ',', lit ' ', mmmm, lit ' ', d, lit ',', lit ' ', yyyy] ∧  -- dddd, mmmm d, yyyy
+    SimpleDateCode [ddd, lit ' ', d, lit ' ', mmm, lit ' ', yyyy] ∧                      -- ddd d mmm yyyy
+    SimpleDateCode [mmmm, lit ' ', yyyy] ∧                                               -- mmmm yyyy
+    SimpleDateCode [d, lit ' ', mmmm, lit ' ', yyyy] ∧                                   -- d mmmm yyyy
+    SimpleDateCode [d, lit '-', mmm, lit '-', yy, lit ' ', h12, lit ':', mi, lit ' ', ampm] ∧  -- d-mmm-yy h:mm AM/PM
+    SimpleDateCode [ddd, lit ' ', hh, lit ':', mi] := by                                 -- ddd hh:mm
+  decide
+
+open Tok in
+/-- the code reads `h` as the 24-hour clock without the marker and as the 12-hour clock with it: the lists
+    that say otherwise are not in the class -/
+example : ¬ SimpleDateCode [h, lit ':', mi, lit ' ', ampm] ∧ ¬ SimpleDateCode [h12, lit ':', mi] := by decide
+
+open Tok in
+example : codeText [h12, lit ':', mi, lit ' ', ampm] = "h:mm AM/PM".toList ∧
+    codeText [dddd, lit ',', lit ' ', mmmm, lit ' ', d, lit ',', lit ' ', yyyy] = "dddd, mmmm d, yyyy".toList := by
+  decide
+
+open Tok in
+/-- non-vacuity / concrete reading: Thursday 2024-05-23 under `dddd, mmmm d, yyyy` (Excel's text) -/
+example : ∃ ts : Rat, convertDateF Rat 2024 5 23 0 0 0 = some ts ∧
+    formatAsDateChecked "dddd, mmmm d, yyyy".toList [] ts = some "Thursday, May 23, 2024".toList := by
+  obtain ⟨ts, e1, e2⟩ := C18_date_display_convert stdModel_rat
+    [dddd, lit ',', lit ' ', mmmm, lit ' ', d, lit ',', lit ' ', yyyy] C18_simple_codes_names.2.2.2.1 (by decide)
+    [] 2024 5 23 0 0 0 (by decide) (by decide) (Or.inl exactRepr_rat)
+  refine ⟨ts, e1, ?_⟩
+  have e : codeText [dddd, lit ',', lit ' ', mmmm, lit ' ', d, lit ',', lit ' ', yyyy] =
+      "dddd, mmmm d, yyyy".toList := by decide
+  rw [e] at e2
+  rw [e2]; decide +kernel
+
+open Tok in
+/-- **Refutation of the full display statement for the `AM/PM` marker.**  Built-in format 18 `h:mm AM/PM`,
+    2024-05-23 12:00:00 (exact arithmetic): the cell shows `12:00 pm`; Excel's rule (`showToks`) says `12:00 PM`.
+    The harness replays this witness (`ampm.witness-lowercase`). -/
+theorem C18_ampm_case_fails : ∃ ts : Rat, convertDateF Rat 2024 5 23 12 0 0 = some ts ∧
+    formatAsDateChecked "h:mm AM/PM".toList [] ts = some "12:00 pm".toList ∧
+    trimBlanks (showToks ⟨2024, 5, 23, 12, 0, 0, daysFromCivil 2024 5 23⟩ [h12, lit ':', mi, lit ' ', ampm]) =
+      "12:00 PM".toList := by
+  obtain ⟨ts, e1, e2⟩ := C18_date_display_ampm_convert_partial stdModel_rat
+    [h12, lit ':', mi, lit ' ', ampm] C18_simple_codes_names.1
+    [] 2024 5 23 12 0 0 (by decide) (by decide) (Or.inl exactRepr_rat)
+  refine ⟨ts, e1, ?_, by decide +kernel⟩
+  have e : codeText [h12, lit ':', mi, lit ' ', ampm] = "h:mm AM/PM".toList := by decide
+  rw [e] at e2
+  rw [e2]; decide +kernel
 
 end Umya.Thm.C18
